@@ -19,6 +19,8 @@ if [ $res_apply = ok ]; then
   ( cd "$OUT" && timeout 900 bash ./build_demo.sh "$WT/include" >"$OUT/verify_demo_orig.log" 2>&1 ); res_demo_orig=$?
 fi
 cd /; git -C /repo worktree remove --force "$WT"; rm -rf "$WT"
+# drop the demo binaries the build scripts leave behind (only sources, logs and verdicts are kept)
+find "$OUT" -type f | while read f; do file "$f" | grep -q ELF && rm -f "$f"; done
 python3 - "$OUT" "$res_apply" "$res_build" "$res_tests" "$res_demo_mut" "$res_demo_orig" <<'PY'
 import json,sys
 out,ap,b,t,dm,do=sys.argv[1:7]
